@@ -44,6 +44,8 @@ def corrupt(toks, kind):
             return None
         t.insert(openers[0], t[openers[0]])
     elif kind == "unterminated_front":
+        if any('"' in x for x in t):
+            return None                     # a later quote would terminate the string
         t.insert(0, '"zz')
     elif kind == "close_front":
         t.insert(0, ")")
@@ -65,13 +67,13 @@ class Docs:
         self.key = []       # value key (tuple) or None for corrupted texts
         self.mvalid = []
         self.nf = []
-        self.sv = []
+        self.sk = []
         self.hev = []
         self.undet = []
         self.kind = []      # "style" | "printer" | "corrupt"
         self.ambiguous = []
 
-    def add(self, text, key, mvalid, nf, sv, hev, undet, kind):
+    def add(self, text, key, mvalid, nf, sk, hev, undet, kind):
         i = self.idx.get(text)
         if i is not None:
             if self.key[i] != key and kind != "corrupt" and self.kind[i] != "corrupt":
@@ -83,7 +85,7 @@ class Docs:
         self.key.append(key)
         self.mvalid.append(mvalid)
         self.nf.append(nf)
-        self.sv.append(sv)
+        self.sk.append(sk)
         self.hev.append(hev)
         self.undet.append(undet)
         self.kind.append(kind)
@@ -116,7 +118,7 @@ def build(tier, wd, rng):
         o = json.loads(raw)
         k = tuple(o["key"])
         if k not in vals or o["gen"] == 0:
-            vals[k] = {"nf": tuple(o["nf"]), "sv": tuple(tuple(x) for x in o["sv"]), "sk": tuple(o["sk"]), "gen": o["gen"],
+            vals[k] = {"nf": tuple(o["nf"]), "sk": tuple(o["sk"]), "gen": o["gen"],
                        "ctx": o.get("ctx", 0)}
     D = Docs()
     by_val = collections.defaultdict(list)      # key -> [doc index]
@@ -125,7 +127,7 @@ def build(tier, wd, rng):
     for raw in gen.tagged["DOC"]:
         o = json.loads(raw)
         k = tuple(o["key"])
-        i = D.add(join(o["toks"]), k, 1, vals[k]["nf"], vals[k]["sv"], tuple(o["hev"]), bool(o["undet"]), "style")
+        i = D.add(join(o["toks"]), k, 1, vals[k]["nf"], vals[k]["sk"], tuple(o["hev"]), bool(o["undet"]), "style")
         if i not in by_val[k]:
             by_val[k].append(i)
         if o["dflt"]:
@@ -157,7 +159,7 @@ def build(tier, wd, rng):
                 continue
             before = len(D.text)
             # M: the printers write implicit bodies with `,`: the hash events of the default style
-            i = D.add(ptexts[g[j]], k, 1, vals[k]["nf"], vals[k]["sv"], D.hev[dflt[k]], D.undet[dflt[k]], "printer")
+            i = D.add(ptexts[g[j]], k, 1, vals[k]["nf"], vals[k]["sk"], D.hev[dflt[k]], D.undet[dflt[k]], "printer")
             n_printer += len(D.text) - before
             if i not in by_val[k]:
                 by_val[k].append(i)
@@ -228,18 +230,74 @@ def build(tier, wd, rng):
                                                                n_corrupted=len(cor_of))
 
 
-def observe_and_table(D, pairs, wd, tag="obs"):
+def simulate(D, pairs, obs_cmp, valid, wd, tag, rng, n_unequal, n_equal):
+    """First TLC pass: the transcription of incremental_compare / ValueValidator (ReconCompare!CmpStep) is run on the
+    real parse events of the pairs where the comparator's size bookkeeping decides:
+      - every pair of different normal forms that the real comparator calls equal, and every pair of equal normal
+        forms that it calls different (the pairs on which a law is broken);
+      - a seeded sample of the pairs with the same skeleton and different normal forms that it tells apart;
+      - a seeded sample of the pairs with equal normal forms that it calls equal.
+    Returns {row index: M's verdict}."""
+    must, cand_ne, cand_eq = [], [], []
+    for r, (a, b) in enumerate(pairs):
+        if a == b or D.mvalid[a] != 1 or D.mvalid[b] != 1 or valid[a] != 1 or valid[b] != 1:
+            continue
+        same = D.nf[a] == D.nf[b]
+        c = obs_cmp[r]
+        if (c == 1) != same:
+            must.append(r)
+        elif not same and D.sk[a] == D.sk[b]:
+            cand_ne.append(r)
+        elif same:
+            cand_eq.append(r)
+    if len(must) > 20000:
+        must = rng.sample(must, 20000)
+    chosen = must + (rng.sample(cand_ne, n_unequal) if len(cand_ne) > n_unequal else cand_ne) \
+                  + (rng.sample(cand_eq, n_equal) if len(cand_eq) > n_equal else cand_eq)
+    if not chosen:
+        return {}, dict(simulated=0)
+    tix = sorted({pairs[r][0] for r in chosen} | {pairs[r][1] for r in chosen})
+    pos = {t: i for i, t in enumerate(tix)}
+    case = {"id": tag, "texts": [D.text[t] for t in tix], "groups": [], "pairs": [], "print": False, "events": list(range(len(tix)))}
+    inp, outp = os.path.join(wd, tag + ".ev.in.ndjson"), os.path.join(wd, tag + ".ev.out.ndjson")
+    core.write_ndjson(inp, [case])
+    core.run_harness("h_core", ["reconcmp"], stdin_path=inp, stdout_path=outp)
+    evs = core.read_ndjson(outp)[0]["events"]
+    sim = []
+    for r in chosen:
+        ea, eb = evs[pos[pairs[r][0]]], evs[pos[pairs[r][1]]]
+        if ea is None or eb is None:
+            continue
+        sim.append([r + 1, ea, eb])
+    tp = os.path.join(wd, tag + ".sim.ndjson")
+    core.write_ndjson(tp, [{"sim": sim}])
+    c = core.cfg(init="SimInit", next_="SimNext", invariants=["SimReport"])
+    # (no -coverage: TLC's coverage instrumentation of the instantiated module exhausts the heap)
+    t = core.run_tlc("MC_ReconCompare", c, os.path.join(wd, tag + ".sim"), workers=4, env={"TABLE": tp}, timeout=1800, xmx="6g", coverage=False)
+    if not t.ok:
+        raise core.ToolError("MC_ReconCompare (simulation pass): %s %s" % (t.status, t.violated))
+    out = {}
+    for x in t.tagged.get("SIM", []):
+        out[x["row"] - 1] = x["cmp"]
+    if len(out) != len(sim):
+        raise core.ToolError("simulation pass answered %d of %d pairs" % (len(out), len(sim)))
+    return out, dict(simulated=len(sim), simulated_law_breaking=len(must), simulated_same_skeleton_sample=min(len(cand_ne), n_unequal),
+                     simulated_equal_sample=min(len(cand_eq), n_equal), sim_states=t.distinct, sim_wall_s=round(t.wall, 1))
+
+
+def observe_and_table(D, pairs, wd, tag="obs", rng=None, n_unequal=1500, n_equal=500):
     res = harness(D.text, [], [[a, b] for a, b in pairs], wd, tag)
     hcls, nfc, hevc = {"panic": 0}, {}, {}
     hash_ = [hcls.setdefault(h, len(hcls)) for h in res["hash"]]
     valid = [1 if x else 0 for x in res["valid"]]
     mnf = [nfc.setdefault(x, len(nfc) + 1) for x in D.nf]
-    msv = [[nfc.setdefault(x, len(nfc) + 1) for x in sv] if D.mvalid[i] == 1 else [] for i, sv in enumerate(D.sv)]
     mhev = [hevc.setdefault(x, len(hevc) + 1) for x in D.hev]
     cmpc = {"0": 0, "1": 1, "!": 9}
     veqc = {"0": 0, "1": 1, "-": 2}
-    rows = [[a + 1, b + 1, cmpc[c], veqc[v]] for (a, b), c, v in zip(pairs, res["pairs"]["cmp"], res["pairs"]["veq"])]
-    table = {"valid": valid, "hash": hash_, "mvalid": D.mvalid, "mnf": mnf, "msv": msv, "mhev": mhev, "rows": rows, "chunk": 2000}
+    obs_cmp = [cmpc[c] for c in res["pairs"]["cmp"]]
+    msim, simstats = simulate(D, pairs, obs_cmp, valid, wd, tag, rng or random.Random(core.seed()), n_unequal, n_equal)
+    rows = [[a + 1, b + 1, c, veqc[v], msim.get(r, 2)] for r, ((a, b), c, v) in enumerate(zip(pairs, obs_cmp, res["pairs"]["veq"]))]
+    table = {"valid": valid, "hash": hash_, "mvalid": D.mvalid, "mnf": mnf, "mhev": mhev, "rows": rows, "chunk": 2000, "simstats": simstats}
     return res, table
 
 
@@ -277,15 +335,20 @@ def pair_classes(D, a, b):
                 s.add("implicit-attr-body-scan")        # the StartBody/EndRecord normalisation differs
             if [e for e in ha if e in ZEROS] != [e for e in hb if e in ZEROS]:
                 s.add("float-zero-sign-hash")           # a float zero of different sign at the same place
-    elif D.nf[b] in D.sv[a] or D.nf[a] in D.sv[b]:
-        s.add("nested-record-start")                    # same items, one nested record opens further left in one of them
+    else:
+        # C15-F12's shape: the same events in the same order - the same primitives, attributes, slots AND the same
+        # EndRecord positions - and the same number of records; only WHERE records open differs.  (A slot key, slot value,
+        # item or attribute body that is wrapped in braces on one side only has an extra StartBody/EndRecord pair.)
+        ca, cb = [e for e in D.nf[a] if e not in ("SB", "IT")], [e for e in D.nf[b] if e not in ("SB", "IT")]
+        if ca == cb and D.nf[a].count("SB") == D.nf[b].count("SB"):
+            s.add("nested-record-start")
     return s
 
 
 def model_of(D, i):
     if D.mvalid[i] != 1:
         return None
-    return {"valid": 1, "normal_form": list(D.nf[i]), "shift_forms": [list(x) for x in D.sv[i]], "hash_events": list(D.hev[i]),
+    return {"valid": 1, "normal_form": list(D.nf[i]), "skeleton": list(D.sk[i]), "hash_events": list(D.hev[i]),
             "undetected_implicit_body": D.undet[i]}
 
 
@@ -347,7 +410,7 @@ def run(tier, out):
     wd = core.workdir("C15")
     core.build_harness("h_core", "reconcmp")
     gen, vals, D, pairs, why, origin, counts = build(tier, wd, rng)
-    res, table = observe_and_table(D, pairs, wd)
+    res, table = observe_and_table(D, pairs, wd, rng=rng, n_unequal=1500 if tier == "quick" else 6000, n_equal=500 if tier == "quick" else 2000)
     r = evaluate(table, wd)
     fails, drift, monly = r.tagged.get("FAIL", []), r.tagged.get("DRIFT", []), r.tagged.get("MONLY", [])
     hits, viol = triage(D, table, fails, out)
@@ -391,7 +454,7 @@ def run(tier, out):
             law_instances_broken_by_code=len(fails), broken_by_law=dict(by_law),
             broken_and_covered_by_known_findings=len(fails) - len(viol), unexcused=len(viol),
             model_drift_rows=len(drift), rows_compared_with_M=len(pairs), broken_only_in_M=len(monly),
-            ambiguous_renderings=len(D.ambiguous), tlc_wall_s=round(r.wall + gen.wall, 1),
+            ambiguous_renderings=len(D.ambiguous), comparator_transcription=table.get("simstats", {}), tlc_wall_s=round(r.wall + gen.wall, 1),
             checker_cmd="tlc Gen_ReconCompare (values, edits, renderings, corruptions) ; h_core reconcmp ; tlc MC_ReconCompare INVARIANT Report (laws P, model M, Conform)")
     for i in rng.sample(range(len(pairs)), 4):
         a, b = pairs[i]
@@ -419,7 +482,7 @@ def replay(path, out):
     for side in ("a", "b"):
         m = (obj.get("model") or {}).get(side)
         if m:
-            D.add(obj[side], ("replay", side), 1, tuple(m["normal_form"]), tuple(tuple(x) for x in m.get("shift_forms", [])), tuple(m["hash_events"]),
+            D.add(obj[side], ("replay", side), 1, tuple(m["normal_form"]), tuple(m.get("skeleton", [])), tuple(m["hash_events"]),
                   m["undetected_implicit_body"], "style")
         else:
             D.add(obj[side], None, 0, ("invalid", obj[side]), (), ("invalid", obj[side]), False, "corrupt")
